@@ -149,6 +149,9 @@ func runC18Hist(toks []string) string {
 //	           entry and the namespace / instantiating-module / read-only queries on its children;
 //	           C = ms.ClearEntryCache();  D<i> = text i is written as a file <name i> into a directory of ms.Path, where
 //	           FindModule finds it when a Process meets an import/include of a module that is not loaded;
+//	           F<i> = text i is written as a file into a second directory, which is not on the search path;
+//	           R<i> = the same followed by ms.Read(that file): a load like L (verdict in "loads");
+//	option e: the trees are dumped after a run that returned errors as well;
 //	and G<namehex> = ms.GetModule(name), which is a run: its errors and, when there are none, the full dump of the
 //	set are appended to "runs" exactly as for P.
 //	Reads produce no output: only what they leave behind matters.
@@ -167,10 +170,12 @@ func runC18Proc(toks []string) string {
 	ms.ParseOptions.StoreUses = strings.Contains(opts, "u")
 	out := &c18Out{Loads: []string{}, Runs: []*runDump{}, Loaded: [][]string{}}
 	read := c18read
-	pathDir := ""
+	pathDir, readDir := "", ""
 	defer func() {
-		if pathDir != "" {
-			os.RemoveAll(pathDir)
+		for _, d := range []string{pathDir, readDir} {
+			if d != "" {
+				os.RemoveAll(d)
+			}
 		}
 	}()
 	loaded := func() {
@@ -199,6 +204,9 @@ func runC18Proc(toks []string) string {
 					run.ErrPos = append(run.ErrPos, "")
 				}
 			}
+			if len(errs) != 0 && strings.Contains(opts, "e") {
+				c18dumpAnyway(ms, run)
+			}
 			if len(errs) == 0 {
 				dumpModules(ms, run, strings.Contains(opts, "f"))
 				if strings.Contains(opts, "q") {
@@ -218,6 +226,29 @@ func runC18Proc(toks []string) string {
 				sort.Strings(keys)
 				for _, k := range keys {
 					read(mm[k])
+				}
+			}
+		case strings.HasPrefix(op, "F"), strings.HasPrefix(op, "R"):
+			// F<i>: text i is written as a file into a directory that is NOT on the search path;
+			// R<i>: the same, then ms.Read(path of that file): a load (verdict in "loads"); findFile puts the
+			// directory of a file it is given on the search path, which must hold only if the load succeeds
+			i, _ := strconv.Atoi(op[1:])
+			if readDir == "" {
+				d, err := os.MkdirTemp("", "c18read")
+				if err != nil {
+					return "BROKEN tempdir: " + err.Error()
+				}
+				readDir = d
+			}
+			file := filepath.Join(readDir, filepath.Base(names[i]))
+			if err := os.WriteFile(file, []byte(texts[i]), 0o644); err != nil {
+				return "BROKEN write: " + err.Error()
+			}
+			if op[0] == 'R' {
+				if err := ms.Read(file); err != nil {
+					out.Loads = append(out.Loads, "err: "+strings.SplitN(err.Error(), "\n", 2)[0])
+				} else {
+					out.Loads = append(out.Loads, "ok")
 				}
 			}
 		case strings.HasPrefix(op, "D"):
@@ -250,6 +281,7 @@ func runC18Proc(toks []string) string {
 					run.ErrPos = append(run.ErrPos, "")
 				}
 			}
+			// (no dump after a failed GetModule: it may have failed before processing anything)
 			if len(errs) == 0 {
 				if e == nil {
 					run.TreeViol = append(run.TreeViol, "GetModule returned neither an entry nor an error")
@@ -272,11 +304,27 @@ func runC18Proc(toks []string) string {
 		return "BROKEN json: " + err.Error()
 	}
 	js := string(b)
-	if pathDir != "" {
-		// files read from the search path are named by their base name, as the texts loaded with Parse are
-		js = strings.ReplaceAll(js, pathDir+string(filepath.Separator), "")
+	for _, d := range []string{pathDir, readDir} {
+		if d != "" {
+			// files read from a directory are named by their base name, as the texts loaded with Parse are
+			js = strings.ReplaceAll(js, d+string(filepath.Separator), "")
+		}
 	}
 	return js
+}
+
+// c18dumpAnyway dumps the trees after a run that returned errors (option e): ToEntry is a public read operation and
+// what it shows then must not depend on the history either.  A read of such a set may fail; that is recorded.
+func c18dumpAnyway(ms *yang.Modules, run *runDump) {
+	defer func() {
+		if r := recover(); r != nil {
+			run.Modules = nil
+			run.TreeViol = []string{fmt.Sprintf("PANIC while dumping after a failed run: %v", r)}
+		}
+	}()
+	dumpModules(ms, run, false)
+	// the clauses of the tree invariant are about processed trees (and are listed in map order)
+	run.TreeViol = []string{}
 }
 
 // c18Out is procOut plus, per run, the source positions of all modules and submodules of the set after it (which
